@@ -175,6 +175,31 @@ def build(reg, src):
     reg.fn(T + 'KGFnWrapper.__call__', cases=wcases, requires=[lambda s: cm.ctx_inv(s.st, s.st.field(s.st.field(s.self, 'klong'), '_context'))],
            returns='opaque', ensures=[wrap_post], ensures_exc=[wrap_exc])
 
+    # ---------------- KGFnWrapper.__init__: the name is resolved WHEN THE WRAPPER IS MADE (the given one, else the one the function is
+    # bound to at that moment) and stored; a later rebinding of the name is what __call__ then follows
+    def winit_setup(given):
+        def f(eng, st):
+            st.env['self'] = st.alloc('KGFnWrapper', {}, fresh=False)
+            st.env['klong'] = VOpaque(hint='klong', nonnull=True)
+            st.env['fn'] = VOpaque(hint='fn', nonnull=True)
+            st.env['sym'] = VOpaque(hint='sym', nonnull=True) if given else NONE
+            st.ghost['find_calls'] = VList([])
+        return f
+
+    def winit_post(s, r):
+        flds = s.st.heap.get(s.self.oid, {})
+        if not all(k in flds for k in ('klong', 'fn', '_sym')):
+            return VBool(False)              # the wrapper no longer stores the resolved name at construction
+        finds = s.st.ghost['find_calls'].items
+        if isinstance(s._entry['sym'], VNoneT):
+            ok = len(finds) == 1 and same(finds[0].items[0], s._entry['fn']).t is not None
+            return And(VBool(len(finds) == 1), same(flds['_sym'], finds[0].items[1]) if len(finds) == 1 else VBool(False),
+                       same(flds['fn'], s._entry['fn']), same(flds['klong'], s._entry['klong']))
+        return And(VBool(len(finds) == 0), same(flds['_sym'], s._entry['sym']), same(flds['fn'], s._entry['fn']), same(flds['klong'], s._entry['klong']))
+    reg.fn(T + 'KGFnWrapper.__init__', cases=[('sym-given', winit_setup(True)), ('sym-searched', winit_setup(False))], returns=None, ensures=[winit_post])
+    reg.fn(T + 'KGFnWrapper._find_symbol', returns='opaque', verify=False, raises=[],
+           ghost_at_call=lambda eng, st, s, r: 'find_calls' in st.ghost and st.ghost.__setitem__('find_calls', VList(st.ghost['find_calls'].items + [VTuple([s.fn, r])])))
+
     # ---------------- KlongInterpreter item access
     def ki_setup(eng, st):
         c03.klong_setup(eng, st)
